@@ -243,6 +243,8 @@ impl GraphEngine {
         WriteTxn {
             engine: self,
             _guard: guard,
+            #[cfg(nervusdb_verif)]
+            _vt_guard,
             txid,
             created_nodes: Vec::new(),
             pending_label_additions: Vec::new(),
@@ -814,6 +816,9 @@ fn build_segment_from_runs(seg_id: SegmentId, runs: &Arc<Vec<Arc<L0Run>>>) -> Cs
 pub struct WriteTxn<'a> {
     engine: &'a GraphEngine,
     _guard: std::sync::MutexGuard<'a, ()>,
+    // reports the release of the writer lock when the transaction ends (declared after the guard it shadows)
+    #[cfg(nervusdb_verif)]
+    _vt_guard: crate::verif_hooks::LockToken,
     txid: u64,
     created_nodes: Vec<(ExternalId, LabelId, InternalNodeId)>,
     pending_label_additions: Vec<(InternalNodeId, LabelId)>,
